@@ -240,6 +240,84 @@ def masks():
             pass
         return True
     one("rsome.lp:DecVar.adapt", "integer variables, re-declared and unknown scenarios", illegal, "illegal-declarations-raise")
+
+    def after_use():
+        """declaring adaptation after the rule (or any part of it) was used in an expression raises -- otherwise the
+        expression built earlier keeps only the intercept"""
+        uses = {"whole rule": lambda y, x, z: y + x, "slice": lambda y, x, z: y[0] + x[0], "element in a constraint": lambda y, x, z: y[1] <= 1,
+                "slice times a number": lambda y, x, z: 2 * y[:1], "sum": lambda y, x, z: y.sum(), "reshape": lambda y, x, z: y.reshape((1, 2)) if hasattr(y, "reshape") else y + 0,
+                "negation of a slice": lambda y, x, z: -y[1], "slice in an objective": lambda y, x, z: y[0] - x[1]}
+        adapts = {"y.adapt(z)": lambda y, z: y.adapt(z), "y[0].adapt(z[1])": lambda y, z: y[0].adapt(z[1]), "y[1].adapt(z)": lambda y, z: y[1].adapt(z)}
+        for un, use in uses.items():
+            for an, ad in adapts.items():
+                m = ro.Model()
+                x = m.dvar(2)
+                y = m.ldr(2)
+                z = m.rvar(2)
+                try:
+                    use(y, x, z)
+                except (AttributeError, TypeError):
+                    continue                       # this use is not offered by the class: nothing was built
+                try:
+                    ad(y, z)
+                    return f"ro: {an} accepted after the static rule was used ({un})"
+                except (SyntaxError, RuntimeError, ValueError):
+                    pass
+        # dro: adaptation after the model was formulated
+        md = dro.Model(2)
+        xd = md.dvar(2)
+        zd = md.rvar(2)
+        fs = md.ambiguity()
+        fs.suppset(zd <= 1, zd >= -1)
+        md.minsup(rsome.E(xd.sum()), fs)
+        md.st(xd >= zd)
+        md.do_math()
+        for an, ad in (("x.adapt(z)", lambda: xd.adapt(zd)), ("x.adapt(1)", lambda: xd.adapt(1)), ("x[0].adapt(z[0])", lambda: xd[0].adapt(zd[0]))):
+            try:
+                ad()
+                return f"dro: {an} accepted after the model was formulated"
+            except (SyntaxError, RuntimeError, ValueError, KeyError):
+                pass
+        return True
+    one("rsome.lp:DecRule.adapt", "every way of using a static rule, then every way of adapting it", after_use, "adaptation-after-use-raises")
+
+    def scenario_selection():
+        """fset[...] / fset.iloc[...] select scenarios by position, fset.loc[...] by label (slices end-inclusive), exactly
+        like the pandas Series of scenario labels; an event declared through a selection consists of those scenarios"""
+        import pandas as pd
+        for labels in (None, [10, 20, 30, 40], [3, 1, 0, 2], ["a", "b", "c", "d"]):
+            S = 4
+            lab = list(range(S)) if labels is None else labels
+            ref = pd.Series(range(S), index=lab)
+            sels = {"loc": [lab[1], slice(lab[1], lab[2]), slice(lab[0], lab[3], 2), [lab[2], lab[0]], slice(None, lab[1]), slice(lab[2], None)],
+                    "iloc": [1, slice(1, 3), slice(0, 4, 2), [2, 0], slice(None, 1), slice(2, None)],
+                    "getitem": [slice(1, 3), slice(0, 4, 2), slice(None, 1), [lab[2], lab[0]]]}
+            for how, items in sels.items():
+                for it in items:
+                    m = dro.Model(S if labels is None else labels)
+                    x = m.dvar(2)
+                    fs = m.ambiguity()
+                    try:
+                        want = ref.loc[it] if how == "loc" else ref.iloc[it] if how == "iloc" else ref[it]
+                    except Exception:
+                        continue
+                    want = sorted(int(v) for v in np.atleast_1d(np.asarray(want)).tolist())
+                    try:
+                        sc = fs.loc[it] if how == "loc" else fs.iloc[it] if how == "iloc" else fs[it]
+                    except Exception as e:
+                        return f"labels={labels} {how}[{it}] raised {type(e).__name__}: {e}"
+                    got = sc.series
+                    got = sorted(int(v) for v in np.atleast_1d(np.asarray(got)).tolist())
+                    if got != want:
+                        return f"labels={labels} {how}[{it}] selects positions {got}, pandas selects {want}"
+                    if 0 < len(want) < S:
+                        x2 = m.dvar()
+                        x2.adapt(sc)
+                        if sorted(x2.event_adapt[-1]) != want:
+                            return f"labels={labels}: adapt({how}[{it}]) made the event {x2.event_adapt[-1]}, expected {want}"
+        return True
+    one("rsome.lp:Scen.__getitem__/loc/iloc", "default, integer and string labels; labels, lists and slices", scenario_selection,
+        "selection-by-position-or-label-as-pandas")
     return out
 
 
